@@ -34,6 +34,7 @@ def run(ctx):
     evalcorr.report_mismatches(ctx, "part", bad, None)
     # oracle: the statement itself on ahbicht
     n_nontrivial, seen = 0, set()
+    n_fed = 0
     for (t, rho), (tag, v) in zip(cases, raws):
         if not (exprs.dom(t) and exprs.valid(t)):
             continue
@@ -70,11 +71,22 @@ def run(ctx):
             ctx.fail(f"shape|{key}", desc, f"only U/O/X, brackets and keys from {sorted(src_fc)}", fx, "oracle: shape of the collected expression")
             continue
         ks = sorted(src_fc)
+        through_ahbicht = len(ks) <= 4 and (n_fed < (1500 if ctx.quick else 20000))
+        n_fed += 1 if through_ahbicht else 0
         for vals in itertools.product((True, False), repeat=len(ks)):
             beta = dict(zip(ks, vals))
             if exprs.beval(pt, beta) != exprs.beval(_rd_as_tree(want), beta):
                 ctx.fail(f"value|{key}|{vals}", dict(desc, fc=beta), f"value of the direct reading {want}", f"value of {fx!r} differs", "oracle: meaning of the collected expression")
                 break
+            if through_ahbicht:
+                # ... and the value format_constraint_evaluation itself gives the collected string under this truth assignment
+                evalimpl.set_cer(fc={k: (b, None if b else f"{k} muss erfüllt sein") for k, b in beta.items()})
+                tag2, v2 = evalimpl.outcome(lambda: evalimpl.fc_evaluation(fx))
+                got2 = v2.format_constraints_fulfilled if tag2 == "ok" else f"raises {v2}"
+                if got2 != exprs.beval(_rd_as_tree(want), beta):
+                    ctx.fail(f"fed|{key}|{vals}", dict(desc, fc=beta, collected=fx), f"format_constraint_evaluation({fx!r}) = value of the direct reading {want} = {exprs.beval(_rd_as_tree(want), beta)}",
+                             str(got2), "oracle: the collected expression, fed to format-constraint evaluation, has the value of the direct reading")
+                    break
     ctx.coverage["distinct_nontrivial"] = n_nontrivial
     ctx.coverage["rule"] = ("corpus of C04 (exhaustive <= 3 leaves x all assignments + random trees) + deeply nested FC trees (4-9 leaves, FCs bare or attached to fulfilled RCs). Correspondence: the collected expression string vs the model's `render` (node level), "
                             "and requirement evaluation followed by format_constraint_evaluation of the collected string under random truth assignments vs the model (part level). "
